@@ -53,6 +53,22 @@ pub const PH_IN_WINDOW: u64 = 3;
 pub const PH_LEAVING: u64 = 4;
 pub const PH_CALLER: u64 = 5;
 
+/// Instance numbers are globally unique per dispatcher instance: plain counter values for
+/// top-level calls and hand-written controllers, tagged encodings for the two cases where no
+/// harness code runs at the start of the inner dispatch.
+pub fn inst_multi(base: u64, k: u64) -> u64 {
+    (1 << 56) | (base << 16) | (k & 0xffff)
+}
+pub fn inst_multi_base(inst: u64) -> u64 {
+    (inst >> 16) & 0xff_ffff_ffff
+}
+pub fn inst_container(top_inst: u64, container: usize) -> u64 {
+    (2 << 56) | (top_inst << 24) | container as u64
+}
+pub fn inst_container_top(inst: u64) -> u64 {
+    (inst >> 24) & 0xffff_ffff
+}
+
 pub fn info(sid: usize, phase: u64) -> u64 {
     (((sid as u64) + 1) << 8) | phase
 }
@@ -150,14 +166,14 @@ impl Ctx {
             None => self.top_inst.load(Ordering::SeqCst),
             Some(p) if self.infos[p].container => {
                 // systems of a dispatcher that runs as a thread-local system of the outer one
-                self.top_inst.load(Ordering::SeqCst) * 4096 + p as u64 + 1
+                inst_container(self.top_inst.load(Ordering::SeqCst), p)
             }
             Some(p) => {
                 let base = self.states[p].cur_inst.load(Ordering::SeqCst);
                 if self.infos[p].multi {
                     // library-driven inner dispatches: the k-th enter of this system since the
                     // batch entered belongs to the k-th inner dispatch
-                    base * 64 + self.states[sid].occ.load(Ordering::SeqCst)
+                    inst_multi(base, self.states[sid].occ.load(Ordering::SeqCst))
                 } else {
                     base
                 }
